@@ -199,6 +199,21 @@ pub fn reset_globals() {
 pub static CUR_CX: Mutex<Option<Arc<Cx>>> = Mutex::new(None);
 
 /// Raw (ingredient, id) key for protocol events: stable identity, no abstraction.
+/// Lock-free map from the slot index of an `FNode` to the function index of the current job (0 = unknown):
+/// hook events are emitted under salsa's locks, where the harness must not take locks of its own.
+pub static NODE_FN_FAST: [std::sync::atomic::AtomicUsize; 1024] = [const { std::sync::atomic::AtomicUsize::new(0) }; 1024];
+
+/// Function index of a function-ingredient key (0 if it is not a program function).
+pub fn fn_index_fast(k: salsa::DatabaseKeyIndex) -> usize {
+    match ing_name(k.ingredient_index()).as_str() {
+        "q1" | "q1_noeq" | "q1_lru" | "c_fix" | "c_fixjoin" | "c_fb" | "qmany" => NODE_FN_FAST
+            .get(k.key_index().index() as usize)
+            .map(|a| a.load(std::sync::atomic::Ordering::Relaxed))
+            .unwrap_or(0),
+        _ => 0,
+    }
+}
+
 pub fn raw_key(k: salsa::DatabaseKeyIndex) -> String {
     format!("{}#{}", ing_name(k.ingredient_index()), idstr(k.key_index()))
 }
@@ -352,6 +367,9 @@ pub fn new_db(prog: Program) -> VDb {
         for j in 0..db.cx.prog.fns.len() {
             let n = FNode::new(&db, j as u32 + 1);
             node_fn.insert(n.as_id(), j + 1);
+            if let Some(a) = NODE_FN_FAST.get(n.as_id().index() as usize) {
+                a.store(j + 1, std::sync::atomic::Ordering::Relaxed);
+            }
             nodes.push(n);
         }
     }
